@@ -40,6 +40,7 @@ type Val struct {
 	Track    *trackInfo
 	TrackArr bool
 	TypeLit  types.Type
+	ConstVal *big.Int // value of a typed integer constant (for folding bit operations in contracts)
 }
 
 type Loc struct {
@@ -110,6 +111,7 @@ type Ctx struct {
 	oblNames  map[string]int
 	tracks    map[string]*trackInfo
 	immGlobals map[*ssa.Global]*Val
+	gconstObjs []string
 	entry     *Heap
 	curPC     string
 }
